@@ -17,7 +17,9 @@
 //! Mode 0 (pair):   0 <a> <b>
 //!   -> eq cmp hash_eq t_lt t_eq t_in t_key      cmp: 0 Less 1 Equal 2 Greater; template answers: 0/1 or 100+err
 //! Mode 1 (filter): 1 fid rev cs count attr_tag [n cps] fill_tag [<v>] <container>
-//!   fid: 0 sort 1 unique 2 groupby 3 batch 4 slice 5 reverse 6 min 7 max 8 reverse|reverse 9 last; rev/cs: 0 false 1 true 2 unset
+//!   fid: 0 sort 1 unique 2 groupby 3 batch 4 slice 5 reverse 6 min 7 max 8 reverse|reverse 9 last
+//!        10 dictsort (count != 0: by="value") 11 items 12 map(attribute=attr[, default=fill]) 13 select 14 reject 15 sum
+//!        16 join(attr as the joiner); rev/cs: 0 false 1 true 2 unset
 //!   -> 0 <canonical value> | 1 errcode | 2 (panic)
 //! Canonical value = description with integer width 0 and iterable sizedness 0; strings report the safe flag.
 use std::collections::hash_map::DefaultHasher;
@@ -274,6 +276,31 @@ fn main() {
                 6 => "min",
                 7 => "max",
                 9 => "last",
+                10 => {
+                    if count != "0" {
+                        args.push("by=\"value\"".into());
+                    }
+                    tri(cs, "case_sensitive", &mut args);
+                    tri(rev, "reverse", &mut args);
+                    "dictsort"
+                }
+                11 => "items",
+                12 => {
+                    args.push("attribute=at".into());
+                    if fill.is_some() {
+                        args.push("default=fill".into());
+                    }
+                    "map"
+                }
+                13 => "select",
+                14 => "reject",
+                15 => "sum",
+                16 => {
+                    if attr.is_some() {
+                        args.push("at".into());
+                    }
+                    "join"
+                }
                 _ => "reverse|reverse",
             };
             let src = if args.is_empty() {
